@@ -130,6 +130,12 @@ def batch_case(M, model, m, n, rows, batch, kkind="vec", bkind="vec", wkind="mat
     return goals
 
 
+def minimize_batch_case(M, **kw):
+    """variance minimisation on the batch grid: per-row clauses of C09 (scatter, per-row fit quality and optimality, feasibility of the padded problem)"""
+    from vf.props import c09
+    return c09.minimize_case(M, **kw)
+
+
 def cases(tier, seed):
     C = []
     big = tier == "thorough"
@@ -148,6 +154,19 @@ def cases(tier, seed):
                     kw["witness_f14"] = True  # keep the per-row clause on two representative cases so that F14 stays witnessed
                 C.append(dict(name=f"{model} n={rows} batch={batch} 2x2", body="batch_case", expect_tags=tags,
                               kwargs=kw, opts=dict(timeout_ms=60000, n_validate=1)))
+    Nm = 4 if big else 3
+    for rows in range(1, Nm + 1):
+        for batch in list(range(1, Nm + 3)) + ["full"]:
+            tags = []
+            bs = rows if batch == "full" else batch
+            if rows % bs:
+                tags.append("padded-last-batch")
+            if bs > rows:
+                tags.append("batch>n")
+            for l1kind in (("none", "scalar") if (rows, batch) in ((1, 2), (3, 2), (2, 2)) else ("none",)):
+                C.append(dict(name=f"minimize n={rows} batch={batch} 2x2 L1={l1kind}", body="minimize_batch_case", expect_tags=tags,
+                              kwargs=dict(m=2, n=2, rows=rows, batch=batch, kkind="vec", bkind="vec", epskind="explicit", l1kind=l1kind),
+                              opts=dict(timeout_ms=60000, n_validate=1)))
     if big:
         for model in ("gaussian", "poisson"):
             for (m, n) in ((2, 3), (3, 2)):
